@@ -553,8 +553,8 @@ func checkExclusionWiring(p *Prog, r *Report) {
 			}
 		}
 	}
-	// the parser inserts the network of every accepted line
-	fp := Paths(parser)
+	// the parser inserts the network of every accepted line (a per-line helper is expanded in place)
+	fp := PathsInl(parser)
 	okIns, why := true, ""
 	nLine := 0
 	for _, s := range fp.Segs {
